@@ -70,6 +70,10 @@ func (w *world) finishStep(st *step) {
 		}
 		ru.gone = true
 	}
+	if st.ctxDied() {
+		w.r.Probe("ctx-ended-during-call")
+		w.noteCtxFaults(st)
+	}
 	if st.kind == kRead {
 		w.checkRead(st)
 	} else {
@@ -129,8 +133,13 @@ func (w *world) checkRead(st *step) {
 		w.r.Probe("concurrent-read-group")
 	}
 	for _, c := range st.readers {
+		// a context error is on the account of a context that ended while the call (or a call that
+		// overlapped it: the flight is shared) was running; any other is a store error like another
+		if c.out == oStoreErr && isCtxErr(c.err) && w.ctxErrPossible(st, c) {
+			c.out = oCtxErr
+		}
 		if w.r.Tracing() {
-			w.r.Logf("  call %d %s -> out=%d got=%+v err=%v own=%d", c.id, readKindNames[c.kind], c.out, c.got, c.err, len(c.own))
+			w.r.Logf("  call %d %s %s -> out=%d got=%+v err=%v own=%d ctx-ended=%v", c.id, readKindNames[c.kind], c.cx.String(), c.out, c.got, c.err, len(c.own), c.cx.died())
 		}
 		// (4) the error of one's own failed query is what one gets back
 		for _, x := range c.own {
@@ -174,8 +183,15 @@ func (w *world) checkRead(st *step) {
 			} else if x.caller != c {
 				w.r.Probe("singleflight-shared-error")
 			}
+		case oCtxErr:
+			// the call was given up along with its context; what matters is what it left behind
+			// (checked below and by the invariants) and that nothing else was made up
+			w.r.Probe("context-error-returned")
+			if !c.cx.died() {
+				w.r.Probe("context-error-shared-by-flight")
+			}
 		case oStoreErr:
-			if !w.faulty {
+			if !w.faulty && !risk {
 				w.fail("unexpected-error", "call %d (%s) returned %v in a history without store faults", c.id, readKindNames[c.kind], c.err)
 				break
 			}
@@ -197,7 +213,7 @@ func (w *world) checkRead(st *step) {
 			w.r.Probe("read-on-healthy-node-while-other-node-down")
 		}
 		if st.getFails(c) {
-			if c.out != oStoreErr {
+			if c.out != oStoreErr && c.out != oCtxErr {
 				w.fail("store-error-not-reported", "call %d (%s): every store access failed (%s) but the call returned (%+v, %v)", c.id, readKindNames[c.kind], st.faultDesc(), c.got, c.err)
 			} else if st.anyOut() {
 				w.r.Probe("store-outage-during-read")
@@ -287,8 +303,8 @@ func (w *world) checkRead(st *step) {
 	}
 	// (2)/(3) once a load succeeded the entry serves everybody else until min-expiry
 	for kind := 0; kind < 2; kind++ {
-		if nOK[kind] <= 1 || relaxed || st.fault == fErrSET || st.fault == fLossy || st.anyOut() || risk {
-			continue
+		if nOK[kind] <= 1 || relaxed || st.fault == fErrSET || st.fault == fLossy || st.anyOut() || risk || st.ctxDied() {
+			continue // (a loader whose context ended could not write its entry)
 		}
 		base := w.e
 		if firstOK[kind].ver == 0 {
@@ -405,9 +421,12 @@ func (w *world) checkWrite(st *step) {
 		}
 		w.r.Probe("no-cache-pass-through")
 		return
-	case kFailExec:
-		if !errors.Is(st.err, errWrite) {
-			w.fail("exec-error-swallowed", "Exec whose database write failed returned %v", st.err)
+	case kWrite, kDelete, kFailExec:
+		if st.dbErr == nil {
+			break // the write took effect: an invalidation, below
+		}
+		if !errors.Is(st.err, st.dbErr) {
+			w.fail("exec-error-swallowed", "Exec whose database write failed with %q returned %v", st.dbErr, st.err)
 		}
 		// the write did not happen: nothing was invalidated
 		if !st.pendPre && !w.cleanerPending(ent) {
@@ -428,8 +447,11 @@ func (w *world) checkWrite(st *step) {
 			}
 			w.fail(class, "%s(%s) returned %v; no fault was injected on the node owning the key", stepKindNames[st.kind], ent.pkey, st.err)
 		}
-		if st.err != nil && !w.faulty {
+		if st.err != nil && !w.faulty && !st.ctxDied() && !w.breakerRisk(w.ownerOf(ent.pkey)) {
 			w.fail("unexpected-error", "%s returned %v in a history without store faults", stepKindNames[st.kind], st.err)
+		}
+		if st.err != nil && st.ctxDied() {
+			w.r.Probe("context-error-returned")
 		}
 		if setFails && st.err == nil {
 			w.fail("store-error-not-reported:set", "%s returned nil although every SET failed (%s)", stepKindNames[st.kind], st.faultDesc())
@@ -457,9 +479,18 @@ func (w *world) checkWrite(st *step) {
 		}
 		return
 	}
-	// invalidating operations: Exec with a successful write, DelCache
+	// invalidating operations: Exec with a successful write, DelCache.  A call whose context ended
+	// may report that (the write is in the database all the same: ExecCtx's "result and non-nil
+	// error"); it is an invalidation nevertheless
 	if st.err != nil {
-		w.fail("unexpected-error", "%s returned %v", stepKindNames[st.kind], st.err)
+		if !st.ctxDied() {
+			w.fail("unexpected-error", "%s returned %v", stepKindNames[st.kind], st.err)
+		} else {
+			w.r.Probe("context-error-returned")
+		}
+	}
+	if st.ctxDied() && st.kind != kDelCache {
+		w.r.Probe("db-write-took-effect-and-ctx-ended")
 	}
 	// per key: did its DEL reach the node that owns it?  Keys of one call that live on one node
 	// travel in one command, keys on different nodes are deleted node by node, and a node that is
@@ -588,6 +619,77 @@ func (w *world) invariants() {
 	}
 }
 
+// quietSince: no injected failure reached a store command at or after this instant and go-zero's
+// redis breaker has forgotten the earlier ones: a command sent from here on is executed and answered.
+func (w *world) quietSince() time.Time {
+	if w.lastFault.IsZero() {
+		return w.start.Add(-time.Hour)
+	}
+	return w.lastFault.Add(breakerWindow)
+}
+
+// cleanerDue: the instant by which the cleaner must have made up for the failed DEL(s) of the
+// row's invalidation(s): the first rung of the retry ladder whose earliest possible instant (one
+// wheel tick early per rung) lies in the quiet period must succeed; every rung before it may have
+// failed, each attempt lasting up to attemptMax.
+func (w *world) cleanerDue(ent *entity, quiet time.Time) (time.Time, bool) {
+	for i, c := range ladder {
+		if ent.dirtyInv.Add(c - time.Duration(i+1)*time.Second).After(quiet) {
+			return ent.dirtyRet.Add(c + time.Duration(i+1)*attemptMax + ladderSlack), true
+		}
+	}
+	return time.Time{}, false
+}
+
+// checkDue: the cleaner's deadline for the row has passed: no key of the row whose DEL failed may
+// still hold what the invalidation was to remove.
+func (w *world) checkDue(ent *entity, due time.Time) {
+	w.r.Probe("cleaner-deadline-checked")
+	if w.cluster {
+		w.r.Probe("cleaner-deadline-checked-in-cluster")
+	}
+	for i, k := range ent.keys() {
+		s := w.snapKey(k)
+		if !s.ex || !ent.dirtyK[i] {
+			continue
+		}
+		stale := false
+		switch {
+		case s.val == placeholder:
+			stale = ent.ver != 0
+		case i == 0:
+			v, ok := parseRow(s.val)
+			stale = !ok || v != w.curRow(ent)
+		default:
+			stale = ent.ver == 0
+		}
+		if stale {
+			last := "none"
+			if !w.lastFault.IsZero() {
+				last = w.lastFault.Sub(w.start).String()
+			}
+			w.fail("stale-after-cleaner-deadline", "the DEL of an invalidation of row %d did not reach the store (the call returned at %v); the cleaner's retry ladder (last store fault: %s) allows until %v, now is %v and key %s still holds the stale %q (database: %+v)",
+				ent.idx, ent.dirtyRet.Sub(w.start), last, due.Sub(w.start), time.Since(w.start), k, s.val, w.curRow(ent))
+		}
+	}
+	ent.dirtyK = [2]bool{} // from here on reads must be coherent
+}
+
+// overdue is evaluated between operations: a failed invalidation whose cleaner deadline has passed
+// meanwhile.  Store faults that fire later cannot undo a retry that was due earlier.
+func (w *world) overdue() {
+	quiet := w.quietSince()
+	for _, ent := range w.ents {
+		if !ent.dirty() {
+			continue
+		}
+		if due, ok := w.cleanerDue(ent, quiet); ok && time.Now().After(due) {
+			w.r.Probe("cleaner-deadline-passed-during-history")
+			w.checkDue(ent, due)
+		}
+	}
+}
+
 // finish: faults stop; bounded liveness of failed invalidations; a final audit through the API.
 func (w *world) finish() {
 	if w.aborted {
@@ -599,84 +701,43 @@ func (w *world) finish() {
 	for _, n := range w.nodes {
 		n.down = simredis.None
 	}
-	if w.faulty {
-		quiet := time.Now()
-		if !w.lastFault.IsZero() {
-			quiet = w.lastFault.Add(breakerWindow)
-			if quiet.Before(time.Now()) {
-				quiet = time.Now()
-			}
+	w.overdue()
+	quiet := w.quietSince()
+	var deadline time.Time
+	for _, ent := range w.ents {
+		if !ent.dirty() {
+			continue
 		}
-		var deadline time.Time
-		for _, ent := range w.ents {
-			if !ent.dirty() {
-				continue
+		if d, ok := w.cleanerDue(ent, quiet); ok {
+			if d.After(deadline) {
+				deadline = d
 			}
-			// the first rung whose earliest possible instant (one wheel tick early per rung) lies in
-			// the quiet period must succeed
-			for i, c := range ladder {
-				if ent.dirtyInv.Add(c - time.Duration(i+1)*time.Second).After(quiet) {
-					d := ent.dirtyRet.Add(c + time.Duration(i+1)*attemptMax + ladderSlack)
-					if d.After(deadline) {
-						deadline = d
-					}
-					ent.hasDeadline = true
-					w.r.Probe("cleaner-deadline-armed")
-					break
-				}
-			}
-			if !ent.hasDeadline {
-				w.r.Probe("cleaner-ladder-exhausted")
-			}
+			ent.hasDeadline = true
+			w.r.Probe("cleaner-deadline-armed")
+		} else {
+			w.r.Probe("cleaner-ladder-exhausted")
 		}
-		limit := 7 * time.Minute
-		if w.tier == "thorough" {
-			limit = 70 * time.Minute
-		}
-		if d := time.Until(deadline); !deadline.IsZero() && d < limit {
-			if d > 0 {
-				w.ops = append(w.ops, "wait for the cleaner "+d.String())
-				w.r.Sleep(d)
-			}
-			for _, ent := range w.ents {
-				if ent.hasDeadline {
-					w.r.Probe("cleaner-deadline-checked")
-					if w.cluster {
-						w.r.Probe("cleaner-deadline-checked-in-cluster")
-					}
-				}
-				if !ent.dirty() || !ent.hasDeadline {
-					continue
-				}
-				for i, k := range ent.keys() {
-					s := w.snapKey(k)
-					if !s.ex || !ent.dirtyK[i] {
-						continue
-					}
-					stale := false
-					switch {
-					case s.val == placeholder:
-						stale = ent.ver != 0
-					case i == 0:
-						v, ok := parseRow(s.val)
-						stale = !ok || v != w.curRow(ent)
-					default:
-						stale = ent.ver == 0
-					}
-					if stale {
-						w.fail("stale-after-cleaner-deadline", "the DEL of an invalidation of row %d failed at %v; faults stopped, the cleaner's retry ladder allows until %v, now is %v and key %s still holds the stale %q (database: %+v)",
-							ent.idx, ent.dirtyRet.Sub(w.start), deadline.Sub(w.start), time.Since(w.start), k, s.val, w.curRow(ent))
-					}
-				}
-				ent.dirtyK = [2]bool{} // from here on reads must be coherent
-			}
-		} else if !deadline.IsZero() {
-			w.r.Probe("cleaner-deadline-too-far")
-		}
-		// let the breaker forget the injected failures before the audit
-		if d := time.Until(quiet); d > 0 {
+	}
+	limit := 7 * time.Minute
+	if w.tier == "thorough" {
+		limit = 70 * time.Minute
+	}
+	if d := time.Until(deadline); !deadline.IsZero() && d < limit {
+		if d > 0 {
+			w.ops = append(w.ops, "wait for the cleaner "+d.String())
 			w.r.Sleep(d)
 		}
+		for _, ent := range w.ents {
+			if ent.dirty() && ent.hasDeadline {
+				w.checkDue(ent, deadline)
+			}
+		}
+	} else if !deadline.IsZero() {
+		w.r.Probe("cleaner-deadline-too-far")
+	}
+	// let the breaker forget the injected failures before the audit
+	if d := time.Until(quiet); d > 0 {
+		w.r.Sleep(d)
 	}
 	// audit: one more read of every row through the API
 	for _, ent := range w.ents {
